@@ -32,13 +32,13 @@ def oracle_scorer_spec(spec):
 def cases(draw, tier):
     sc = draw(st.sampled_from(SCORERS))
     p = draw(st.integers(1, 3))
+    bulk = None  # the bulk draws (table, data) come last: see strategies/data.py
+    unit = 1.0
     if sc == "table":
         msl = draw(st.integers(1, 3))
         n = draw(st.integers(2 * msl, 11))
-        m = (n + 1) ** 3
-        flat = draw(st.lists(st.integers(-1, 4), min_size=m, max_size=m))
-        t = np.asarray(flat).reshape(n + 1, n + 1, n + 1).tolist()
-        sc = {"cls": "TableChangeScore", "table": t}
+        bulk = "table"
+        sc = {"cls": "TableChangeScore", "table": None}
         X = [[0.0] * p for _ in range(n)]
     else:
         ms = 1 if sc == "function" else K.scorer_min_size(sc, p)
@@ -50,21 +50,29 @@ def cases(draw, tier):
                   "offset": draw(st.sampled_from([0, 0, 1, 2])), "ncols": draw(st.sampled_from([1, 1, 2, 3]))}
             X = [[0.0] * p for _ in range(n)]
         else:
-            X, _ = draw(D.structured_matrix(n, p, boundary_positions=(msl, n - msl)))
+            bulk = "matrix"
             unit = draw(st.sampled_from([1.0, 1.0, 1.0, 1e-3, 1e-6, 1e3]))  # data in small / large units
-            if unit != 1.0:
-                X = [[v * unit for v in row] for row in X]
     mil = D.weighted(draw, [(2, st.just(2 * msl)), (6, st.integers(2 * msl, 2 * msl + 40)), (1, st.just(200))])
     scale = draw(st.sampled_from([0.0, 0.2, 0.5, 1.0, 2.0, None]))
     if isinstance(sc, dict) and sc["cls"] in ("TableChangeScore", "FunctionChangeScore") and scale is not None:
         # integer scores 0..6: choose scales so that the threshold falls among them
         scale = draw(st.sampled_from([0.0, 0.1, 0.2, 0.35, 0.5]))
-    return {"params": {"change_score": sc, "threshold_scale": scale, "level": draw(K.level_strategy),
+    case = {"params": {"change_score": sc, "threshold_scale": scale, "level": draw(K.level_strategy),
                        "min_segment_length": msl, "max_interval_length": mil,
                        "growth_factor": draw(K.growth_strategy)},
-            "X": X, "scale2": draw(st.floats(1.0, 3.0)),
+            "X": None, "scale2": draw(st.floats(1.0, 3.0)),
             # the detector may have been fitted on other data (other length): detections are relative to threshold_
             "n_train": draw(st.sampled_from([None, None, "shorter", "longer", "same_buffer"]))}
+    if bulk == "table":
+        m = (n + 1) ** 3
+        flat = draw(st.lists(st.integers(-1, 4), min_size=m, max_size=m))
+        sc["table"] = np.asarray(flat).reshape(n + 1, n + 1, n + 1).tolist()
+    elif bulk == "matrix":
+        X, _ = draw(D.structured_matrix(n, p, boundary_positions=(msl, n - msl)))
+        if unit != 1.0:
+            X = [[v * unit for v in row] for row in X]
+    case["X"] = X
+    return case
 
 
 def training_data(X, mode, n_min, scorer_spec=None):
